@@ -8,6 +8,11 @@
 (* groups have Y = 0):                                                     *)
 (*     "sl2z"   SL(2,Z)        "gl2z"   GL(2,Z)  (determinant +-1)          *)
 (*     "gl3z"   GL(3,Z)        "sl2zi"  SL(2,Z[i])                          *)
+(*     "m2z", "m3z"   invertible NON-unimodular integer matrices (a monoid   *)
+(*                    walk): there the adjoint images are rational and are   *)
+(*                    carried as numerators g E_ij adj(g), resp. the same on *)
+(*                    the traceless basis, over the denominator det g; the   *)
+(*                    numerators are multiplicative, N(g) N(s) = N(g s)      *)
 (* Every map is defined by its MEANING, not by the library's formula:       *)
 (*   irrep n   Sym^(n-1): the action on binary forms of degree n-1 obtained *)
 (*             by substituting e1 -> a e1 + c e2, e2 -> b e1 + d e2 and     *)
@@ -36,7 +41,7 @@
 (***************************************************************************)
 EXTENDS IntMat, Gauss, FiniteSets, Json
 
-CONSTANTS Grp,        \* "sl2z", "gl2z", "gl3z", "sl2zi"
+CONSTANTS Grp,        \* "sl2z", "gl2z", "gl3z", "sl2zi", "m2z", "m3z"
           MaxLen,     \* length of the walks
           MaxIrrep,   \* irreducible representations of dimension 2..MaxIrrep
           MaxDet      \* determinants of the irreducible images up to this dimension
@@ -45,7 +50,8 @@ VARIABLES g, len, last
 
 Neg(k) == 0 - k
 M2(a, b, c, d) == <<<<a, b>>, <<c, d>>>>
-Dim == IF Grp = "gl3z" THEN 3 ELSE 2
+Dim == IF Grp \in {"gl3z", "m3z"} THEN 3 ELSE 2
+Rational == Grp \in {"m2z", "m3z"}
 Id == CId(Dim)
 IsReal == Grp # "sl2zi"
 
@@ -61,6 +67,11 @@ Gens ==
                         C |-> CReal(E3(3, 1, Neg(1))), Ci |-> CReal(E3(3, 1, 1)),
                         Q |-> CReal(<<<<0, 1, 0>>, <<0, 0, 1>>, <<1, 0, 0>>>>),
                         R |-> CReal(<<<<1, 0, 0>>, <<0, 1, 0>>, <<0, 0, Neg(1)>>>>)]
+    [] Grp = "m2z" -> [A |-> CReal(M2(2, 1, 0, 1)), B |-> CReal(M2(1, 0, 1, 3)), T |-> CReal(M2(1, 1, 0, 1)),
+                       R |-> CReal(M2(1, 0, 0, Neg(1))), C |-> CReal(M2(1, 2, Neg(1), 1))]
+    [] Grp = "m3z" -> [A |-> CReal(<<<<2, 3, 1>>, <<1, 2, 1>>, <<1, 1, 2>>>>), B |-> CReal(<<<<1, 0, 0>>, <<0, 3, 1>>, <<0, 1, 1>>>>),
+                       E |-> CReal(E3(1, 2, 1)), R |-> CReal(<<<<1, 0, 0>>, <<0, 1, 0>>, <<0, 0, Neg(1)>>>>),
+                       Q |-> CReal(<<<<0, 1, 0>>, <<0, 0, 1>>, <<1, 0, 0>>>>)]
     [] Grp = "sl2zi" -> [T |-> CReal(M2(1, 1, 0, 1)), S |-> CReal(M2(0, Neg(1), 1, 0)),
                          J |-> CM(M2(1, 0, 0, 1), M2(0, 1, 0, 0)), Ji |-> CM(M2(1, 0, 0, 1), M2(0, Neg(1), 0, 0)),
                          L |-> CM(M2(1, 0, 0, 1), M2(0, 0, 1, 0)),
@@ -71,6 +82,9 @@ Mul(a, b) == CMul(a, b)
 Inv(a) == IF Dim = 2 THEN CInv2(a) ELSE CReal(InvM(a.re))
 En(a, i, j) == <<a.re[i][j], a.im[i][j]>>
 DetOf(a) == IF Dim = 2 THEN CDet2(a) ELSE <<Det(a.re), 0>>
+\* the right-hand conjugator of the adjoint: g^-1, or for the non-unimodular groups the adjugate (= det g * g^-1)
+ConjRight(a) == IF Rational THEN Adj(a.re) ELSE Inv(a).re
+Den(a) == IF Rational THEN DetOf(a)[1] ELSE 1
 
 (***************************************************************************)
 (* Sym^(n-1) by multiplication of coefficient lists                        *)
@@ -111,12 +125,12 @@ Flat(X, p, n) == X[RowOf(p, n)][ColOf(p, n)]
 SlBasis(q, n) == IF RowOf(q, n) = ColOf(q, n) THEN MSub(UnitM(n, RowOf(q, n), ColOf(q, n)), UnitM(n, n, n))
                  ELSE UnitM(n, RowOf(q, n), ColOf(q, n))
 AdGL(a) == LET n == NRows(a.re)
-               ai == Inv(a).re
+               ai == ConjRight(a)
                img == TLCEval([q \in 1..(n * n) |-> MMul(MMul(a.re, UnitM(n, RowOf(q, n), ColOf(q, n))), ai)])
                e(p, q) == Flat(img[q], p, n)
            IN Mk(n * n, n * n, e)
 AdSL(a) == LET n == NRows(a.re)
-               ai == Inv(a).re
+               ai == ConjRight(a)
                img == TLCEval([q \in 1..(n * n - 1) |-> MMul(MMul(a.re, SlBasis(q, n)), ai)])
                e(p, q) == Flat(img[q], p, n)
            IN Mk(n * n - 1, n * n - 1, e)
@@ -176,6 +190,8 @@ MapNames ==
     [] Grp = "gl2z" -> Irreps \cup {"so21", "adgl", "adsl", "blk4"}
     [] Grp = "gl3z" -> {"adgl", "adsl", "real", "blk5"}
     [] Grp = "sl2zi" -> Irreps \cup {"real", "herm", "so31", "blk3"}
+    [] Grp = "m2z" -> Irreps \cup {"adgl", "adsl", "real", "blk4"}
+    [] Grp = "m3z" -> {"adgl", "adsl", "real", "blk5"}
 Scale(nm) == IF nm \in {"so21", "so31"} THEN 2 ELSE 1
 Phi(nm, a) ==
   LET mp == AllMaps[nm] IN
@@ -209,12 +225,13 @@ HomLaw == LET I == Img IN
             Mul(I[nm], GenImg[nm][s]) = Times(Scale(nm), Phi(nm, Mul(g, Gens[s])))
 \* (32-bit integers: evaluated where the entries of both factors are below 10^4, so that no sum of products overflows)
 CSmall(X) == MaxAbs(X.re) <= 10000 /\ MaxAbs(X.im) <= 10000
-InverseLaw == \A nm \in MapNames :
+InverseLaw == ~Rational => \A nm \in MapNames :
                 LET X == Phi(nm, g)
                     Y == Phi(nm, Inv(g))
                 IN (CSmall(X) /\ CSmall(Y)) => Mul(X, Y) = Times(Scale(nm), Phi(nm, Id))
-GroupElement == /\ DetOf(g) \in (IF Grp \in {"sl2z", "sl2zi"} THEN {<<1, 0>>} ELSE {<<1, 0>>, <<Neg(1), 0>>})
-                /\ Mul(g, Inv(g)) = Id
+GroupElement == /\ Rational => DetOf(g)[1] # 0 /\ DetOf(g)[2] = 0 /\ MMul(g.re, Adj(g.re)) = MScale(DetOf(g)[1], IdM(Dim))
+                /\ ~Rational => DetOf(g) \in (IF Grp \in {"sl2z", "sl2zi"} THEN {<<1, 0>>} ELSE {<<1, 0>>, <<Neg(1), 0>>})
+                /\ ~Rational => Mul(g, Inv(g)) = Id
                 /\ IsReal => g.im = ZeroM(Dim, Dim)
 RECURSIVE IPow(_, _)
 IPow(b, e) == IF e = 0 THEN 1 ELSE b * IPow(b, e - 1)
@@ -243,10 +260,11 @@ AdjointLaws == "adgl" \in MapNames =>
                  LET n == Dim
                      A == AdGL(g)
                      B == AdSL(g)
-                 IN /\ MMul(Tr(B), MMul(TraceFormSL(n), B)) = TraceFormSL(n)
-                    /\ MMul(Tr(A), MMul(TraceFormGL(n), A)) = TraceFormGL(n)
-                    /\ Trace(A) = Trace(g.re) * Trace(Inv(g).re)
-                    /\ Trace(B) = Trace(A) - 1
+                     d == Den(g)            \* A, B are numerators over d: (A/d)^T K (A/d) = K
+                 IN /\ MMul(Tr(B), MMul(TraceFormSL(n), B)) = MScale(d * d, TraceFormSL(n))
+                    /\ MMul(Tr(A), MMul(TraceFormGL(n), A)) = MScale(d * d, TraceFormGL(n))
+                    /\ Trace(A) = Trace(g.re) * Trace(ConjRight(g))
+                    /\ Trace(B) = Trace(A) - d
 RealLaws == "real" \in MapNames =>
               /\ CToReal(Times(1, g)) = CToReal(g)
               /\ CToReal(CScale(0, 1, g)) = MMul(CToReal(CScale(0, 1, Id)), CToReal(g))
@@ -255,7 +273,7 @@ ASSUME \A nm \in MapNames : Phi(nm, Id) = Times(Scale(nm), CId(NRows(Phi(nm, Id)
 (***************************************************************************)
 (* Emission                                                                *)
 (***************************************************************************)
-Obs == [g |-> g, len |-> len, det |-> DetOf(g), img |-> Img]
+Obs == [g |-> g, len |-> len, det |-> DetOf(g), den |-> Den(g), img |-> Img]
 EmitObs == PrintT("OBS " \o ToJson(Obs))
 Emit == PrintT("EMIT " \o ToJson([from |-> g, act |-> last', to |-> g']))
 View == <<g, len>>
